@@ -226,6 +226,18 @@ def run_shard(ctx):
                     check_tuple(ctx, name, (a, b),
                                 estimates=(i % 23 == 0))
                 i += 1
+        # scale: a ring / a branched / an unsaturated component placed AFTER
+        # more than 256 heavy atoms (and 600+ atoms once H are added)
+        if name in ('BensonGA', 'PPY', 'GRWSurface2018'):
+            big = ['C' * 130, 'C' * 135]
+            for tail in (('C1CC1',), ('CC(C)C(C)(C)C', 'C1CCOC1'),
+                         ('C=CC=C',)):
+                for tup in (tuple(big) + tail, tail + tuple(big),
+                            ('C' * 262,) + tail):
+                    if ctx.mine(i):
+                        ctx.count('tuples_beyond_256_heavy_atoms')
+                        check_tuple(ctx, name, tup)
+                    i += 1
         r = ctx.sub_rng('c04tri', name)
         for _ in range(60 if ctx.tier == 'quick' else 2000):
             t = tuple(r.choice(pl) for _ in range(3))
